@@ -24,6 +24,15 @@ func VerifTwoPCSnapshot(r distsys.ArchetypeResource) (version int, committed tla
 	return
 }
 
+// VerifTwoPCAcceptedTime is the SenderTime of the pre-commit the replica currently holds (0 if none).
+func VerifTwoPCAcceptedTime(r distsys.ArchetypeResource) int64 {
+	res := r.(*TwoPCArchetypeResource)
+	if res.twoPCState != acceptedPreCommit {
+		return 0
+	}
+	return res.acceptedPreCommit.SenderTime
+}
+
 // VerifLocalReplicaHandle is LocalReplicaHandle{receiver: r}.
 func VerifLocalReplicaHandle(r distsys.ArchetypeResource) ReplicaHandle {
 	return LocalReplicaHandle{receiver: r.(*TwoPCArchetypeResource)}
